@@ -626,7 +626,7 @@ func runCheck(prop, tier, repo, verif string, verbose bool, tmo int) int {
 	// claimed obligations discharged within 5 s when the lock was taken; the check allows them four times that
 	timeout := 20 * time.Second
 	if tier == "thorough" {
-		timeout = 120 * time.Second
+		timeout = 60 * time.Second
 	}
 	if tmo > 0 {
 		timeout = time.Duration(tmo) * time.Second
